@@ -927,7 +927,7 @@ non-trivial = the build returned a converter (or panicked); distinct = distinct 
 
     // 3. generated stacks
     let mut rng = Rng::new(ctx.seed ^ 0xC16);
-    let n = if ctx.thorough { 600_000 } else { 30_000 };
+    let n = if ctx.thorough { 600_000 } else { 20_000 };
     for i in 0..n {
         let malformed = i % 10 == 9;
         let (stack, bad) = gen_stack(&mut rng, malformed);
